@@ -39,7 +39,8 @@ def norm(iv):
 
 
 def is_direct_sink(path):
-    return isinstance(path, str) and name_is(path, "Write::write_str", "Write::write_char", "Write>::write_str", "Write>::write_char") and "Formatter" not in path
+    # write!(w, ..) is Write::write_fmt: formatted text reaches the output without passing any of the accepted classes
+    return isinstance(path, str) and name_is(path, "Write::write_str", "Write::write_char", "Write>::write_str", "Write>::write_char", "Write::write_fmt", "Write>::write_fmt") and "Formatter" not in path
 
 
 def classify(t, in_wrapper, body_path, fnargs_of):
